@@ -153,8 +153,10 @@ def parse_vspec(path):
                 elif want.endswith("?"):
                     # "N?": the rewrite applies N times or not at all.  Only for R5 (error
                     # *text* -> opaque value): when the text is gone there is nothing to make opaque.
-                    if m.group(1) != "R5":
-                        raise SystemExit("%s:%d: optional count only allowed for R5" % (path, ln))
+                    # ... and for R29 (a dependency call -> helper with the dependency's assumed contract):
+                    # when the call is gone there is nothing to replace and the body is verified as it stands
+                    if m.group(1) not in ("R5", "R29"):
+                        raise SystemExit("%s:%d: optional count only allowed for R5 / R29" % (path, ln))
                     want = -int(want[:-1])
                 # `<NL>` stands for a line break (a rewrite may span lines; it must keep their number)
                 cur_item.rewrites.append((m.group(1), int(want), m.group(3).replace('\\"', '"').replace("<NL>", "\n"),
